@@ -37,7 +37,7 @@ PROPS.update({
         "technique": "Lean 4 invariant proofs (FIFO log, id freshness, rejection) by induction over label sequences + correspondence + Lean monitors on real traces",
         "extra": ["stress"],
         "monitors": ["C01"],
-        "corr": corr(["abandon", "eager", "shutdown", "burst", "mixed", "handles", "timeouts"]),
+        "corr": corr(["abandon", "eager", "shutdown", "burst", "mixed", "handles", "timeouts"], erase="both"),
         "extract_items": ["ask_wait_watches_closed"],
         "assumptions": COMMON_ASSUME,
     },
@@ -48,7 +48,7 @@ PROPS.update({
         "technique": "Lean 4 invariant proof (mailbox = suffix of acceptance log) + correspondence + Lean monitors on real traces",
         "extra": ["stress"],
         "monitors": ["C02"],
-        "corr": corr(["abandon", "eager", "shutdown", "burst", "mixed", "timeouts"]),
+        "corr": corr(["abandon", "eager", "shutdown", "burst", "mixed", "timeouts"], erase="both"),
         "extract_items": [],
         "assumptions": COMMON_ASSUME,
     },
@@ -59,7 +59,7 @@ PROPS.update({
         "technique": "Lean 4 invariant proof over label sequences + translated is_retryable + correspondence with virtual-clock return instants",
         "monitors": ["C10"],
         "extra": ["tables", "stress"],
-        "corr": corr(["abandon", "timeouts", "burst", "mixed"]),
+        "corr": corr(["abandon", "timeouts", "burst", "mixed"], erase="both"),
         "extract_items": ["ErrorKind", "forwarders", "timeout_wrappers"],
         "assumptions": COMMON_ASSUME + ["tokio::time::timeout polls the inner future first and fires no earlier than its deadline"],
     },
@@ -94,7 +94,7 @@ PROPS.update({
         "note": PROOF_NOTE,
         "technique": "Lean 4 invariant proof + theorems on translated accessor functions + exhaustive differential test of the translation",
         "monitors": ["C05", "C04"],
-        "extra": ["tables"],
+        "extra": ["tables", "stress"],
         "corr": corr(["eager", "shutdown", "mixed", "idle", "burst"]),
         "extract_items": ["FailurePhase", "ActorResult"],
         "assumptions": COMMON_ASSUME,
@@ -109,7 +109,7 @@ PROPS.update({
         "technique": "Lean 4 invariant proofs + progress theorem over label sequences + extraction of the reply-wait protocol + correspondence",
         "extra": ["stress"],
         "monitors": ["C03"],
-        "corr": corr(["abandon", "eager", "shutdown", "burst", "mixed", "handles", "timeouts", "idle"]),
+        "corr": corr(["abandon", "eager", "shutdown", "burst", "mixed", "handles", "timeouts", "idle"], erase="both"),
         "extract_items": ["ask_wait_watches_closed", "timeout_wrappers", "blocking_dispatch"],
         "assumptions": COMMON_ASSUME + ["Sender::closed() completes once the receiver is closed or dropped"],
     },
@@ -120,7 +120,7 @@ PROPS.update({
         "technique": "Lean 4 fold-invariant proof (budget argument over the split select) + correspondence + Lean monitors on real traces",
         "extra": ["stress"],
         "monitors": ["C06"],
-        "corr": corr(["abandon", "eager", "shutdown", "burst", "mixed", "idle"]),
+        "corr": corr(["abandon", "eager", "shutdown", "burst", "mixed", "idle"], erase="both"),
         "extract_items": [],
         "assumptions": COMMON_ASSUME,
     },
@@ -133,7 +133,7 @@ PROPS.update({
         "note": PROOF_NOTE + " Liveness (the JoinHandle eventually resolves) is stated as progress lemmas plus the settled-trace monitor, not as a temporal theorem.",
         "technique": "Lean 4 case-analysis theorems on the step function + correspondence on handle histories + Lean monitors on settled real traces",
         "monitors": ["C07", "C01", "C02"],
-        "corr": corr(["eager", "shutdown", "handles", "mixed", "burst", "timeouts"]),
+        "corr": corr(["eager", "shutdown", "handles", "mixed", "burst", "timeouts"], erase="both"),
         "extra": ["stress"],
         "extract_items": ["lifecycle", "send_paths", "handle_algebra"],
         "assumptions": COMMON_ASSUME + ["the two sender counts of an ActorRef are treated as one (both closure arms are on_stop(false); break - shape lemma lifecycle_arms)"],
